@@ -16,8 +16,9 @@
 
    Crypto abstraction: a signature is the record [by, sess, id, pl]; it verifies under member i for
    H(s, id, pl) iff by = i and the hashes agree; the hash binds exactly what newHashAny feeds to SHA-256.
-   A payload is [origin, body, ok]: `origin` is the tag every in-tree payload carries (MsgNodeSig.PeerIndex,
-   FrostRound*Cast.Key.SourceId), `ok` says whether the registered checkMessage accepts it (right protobuf type).
+   A payload is [origin, body, ok]: `origin` is the sender tag most in-tree payloads carry (MsgNodeSig.PeerIndex,
+   FrostRound*Cast.Key.SourceId; pedersen's NodePubKeyMessage has none), `ok` says whether the registered
+   checkMessage accepts it (right protobuf type).
    Faulty members have no state: they may call the two handlers of any honest member with any arguments, using
    signatures by faulty members (arbitrary), garbage, or honest signatures they have SEEN (`known`).
 
